@@ -450,6 +450,13 @@ pub fn run(tier: Tier) -> i32 {
             r##"<svg><rect data-k="b" id="b" xy="20 20" wh="4"/><rect data-k="z" wh="1"/><rect data-k="a" id="a" xy="#b|h" wh="5"/><rect data-k="e" xy="^|v" wh="3"/></svg>"##),
         ("prev-after-deferred/self", r##"<svg><rect data-k="z" xy="5 5" wh="10"/><rect data-k="e" xy="^|h" wh="#b"/><rect data-k="b" id="b" xy="50 50" wh="4"/></svg>"##,
             r##"<svg><rect data-k="b" id="b" xy="50 50" wh="4"/><rect data-k="z" xy="5 5" wh="10"/><rect data-k="e" xy="^|h" wh="#b"/></svg>"##),
+        // fifth review round
+        ("reference-inside-id", r##"<svg><rect data-k="a" id="a{{#z~w}}" wh="5"/><rect data-k="z" id="z" wh="3"/><rect data-k="p" xy="#a3|h 1" wh="1"/></svg>"##,
+            r##"<svg><rect data-k="z" id="z" wh="3"/><rect data-k="a" id="a{{#z~w}}" wh="5"/><rect data-k="p" xy="#a3|h 1" wh="1"/></svg>"##),
+        ("reference-inside-id/unknown", r##"<svg><rect data-k="a" id="a{{#nope~w}}" wh="5"/></svg>"##,
+            r##"<svg><rect data-k="a" id="a{{#nope~w}}" wh="5"/><rect data-k="z" wh="3"/></svg>"##),
+        ("prev-after-deferred/last-in-if", r##"<svg><if test="1"><rect data-k="a" id="a" xy="#b|h" wh="3"/><rect data-k="b" id="b" xy="10 10" wh="5"/><rect data-k="l" id="l" xy="#a|v 20" wh="4"/></if><rect data-k="n" xy="^|h 1" wh="2"/></svg>"##,
+            r##"<svg><if test="1"><rect data-k="b" id="b" xy="10 10" wh="5"/><rect data-k="a" id="a" xy="#b|h" wh="3"/><rect data-k="l" id="l" xy="#a|v 20" wh="4"/></if><rect data-k="n" xy="^|h 1" wh="2"/></svg>"##),
         ("deferred-state/variable", r##"<svg><var k="1"/><rect data-k="a" id="a" xy="#b|h" wh="$k"/><var k="2"/><rect data-k="b" id="b" wh="5"/></svg>"##,
             r##"<svg><rect data-k="b" id="b" wh="5"/><var k="1"/><rect data-k="a" id="a" xy="#b|h" wh="$k"/><var k="2"/></svg>"##),
         ("deferred-state/defaults", r##"<svg><rect data-k="a" id="a" xy="#b|h"/><defaults><rect wh="7"/></defaults><rect data-k="b" id="b" wh="5"/></svg>"##,
